@@ -170,6 +170,8 @@ with iexec (n : nat) (st : stmt) {struct n} : M unit :=
     | SReturn (Some e) => v <- ieval k true e ;; lift (Ret (Some v))
     | SBlock ss => in_block (iexec k) ss
     | SPrint nl args => print_args (print_arg (ieval k)) true args ;;; if nl then m_out ONl else ret tt
+    | SStruct _ x flds => decl_members x 0 flds      (* no operand is evaluated by these two statements *)
+    | SCopy x y flds => copy_members x y 0 flds
     end
   end.
 End Mech.
